@@ -630,12 +630,49 @@ func (fv *FuncVC) specCall(x *SCall, sc *SpecScope) Val {
 				return Val{sx("select", sc.heap("alloc"), t), SBoolS, bt}
 			}
 			return Val{mkNot(sx("select", fv.getHeap(fv.entry, "alloc"), t)), SBoolS, bt}
+		case "runs", "lasterr":
+			key := x.Args[0].(*SStrLit).V
+			kr := fv.execKeyRef(key)
+			if id.Name == "runs" {
+				fv.heapDecl("G$runs", arraySort(SRef, SInt))
+				return Val{sx("select", sc.heap("G$runs"), kr), SInt, it}
+			}
+			fv.heapDecl("G$lasterr", arraySort(SRef, SRef))
+			return Val{sx("select", sc.heap("G$lasterr"), kr), SRef, nil}
+		case "atlock":
+			// value of an expression right after the (last) Lock() of this function
+			if fv.lockSnap == nil {
+				specFail("atlock(): no Lock() executed on this path")
+			}
+			c := sc.child()
+			c.st = fv.lockSnap
+			return fv.specEval(x.Args[0], c)
 		case "held":
 			// held(x): the mutex guarding x's fields is held by the current goroutine
 			a := args()[0]
-			h := "Held$lock"
+			pt, ok := types.Unalias(a.GoT).Underlying().(*types.Pointer)
+			if !ok {
+				specFail("held(): pointer to a struct with guarded fields expected")
+			}
+			gs := fv.guardsOf(types.Unalias(pt.Elem()))
+			if len(gs) == 0 {
+				specFail("held(): %s has no guarded field", pt.Elem())
+			}
+			h := heldHeap(types.Unalias(pt.Elem()), gs[0].By)
 			fv.heapDecl(h, arraySort(SRef, SBoolS))
 			return Val{sx("select", sc.heap(h), a.T), SBoolS, bt}
+		case "deref":
+			a := args()[0]
+			pt, ok := types.Unalias(a.GoT).Underlying().(*types.Pointer)
+			if !ok {
+				specFail("deref(): not a pointer")
+			}
+			es := th.sortOf(pt.Elem())
+			if _, isStruct := th.structOf[es]; isStruct {
+				specFail("deref() of struct pointers: use field selection")
+			}
+			hp := fv.declPtrHeap(es)
+			return Val{sx("select", sc.heap(hp), a.T), es, pt.Elem()}
 		case "ghost":
 			// ghost("name", x): value of a ghost counter heap at reference x
 			nm := x.Args[0].(*SStrLit).V
